@@ -339,6 +339,48 @@ def contract_query(case):
     return ("ok", bool(must) and len(must) < len(items))
 
 
+# ------------------------------------------------------------------------------------------------ on_alignment queries
+def gen_on_alignment(tier, seed):
+    """get_features_matching(on_alignment=True/False, [seqid], [biotype]) -- the one query method that accepts the
+    argument on every db class"""
+    rnd = random.Random(seed + 17)
+    sets = [SET_A, SET_B + [R("s1", "gene", "aln1", [[2, 6]], "+", "user", on_aln=True),
+                            R("s2", "exon", "aln2", [[0, 3]], "-", "user", on_aln=True)]]
+    for _ in range(12 if tier == "thorough" else 3):
+        sets.append(random_set(rnd, rnd.randint(2, 6)))
+    for recs in sets:
+        for cls in CLASSES:
+            for oa in (True, False):
+                for seqid in (None, "s1", "s2"):
+                    for bt in (None, "gene"):
+                        yield [cls, recs, oa, seqid, bt]
+
+
+def contract_on_alignment(case):
+    cls, recs, oa, seqid, bt = case
+    db, items = cached_db(cls, recs)
+    kw = {"on_alignment": oa}
+    if seqid is not None:
+        kw["seqid"] = seqid
+    if bt is not None:
+        kw["biotype"] = bt
+    q = dict(zip(QKEYS, [seqid, bt, None, None, None, None, None, False]))
+    try:
+        got = [real_feature(r) for r in db.get_features_matching(**kw)]
+    except Exception as e:
+        return ("fail", f"on_alignment/{cls}/raises {type(e).__name__}", f"get_features_matching({kw}) raises {type(e).__name__}: {e}")
+    must, may = select(items, q)
+    must = [it for it in must if bool(it[1].get("on_aln")) == oa]
+    may = [it for it in may if bool(it[1].get("on_aln")) == oa]
+    res = compare(got, must, may, proj_feature)
+    if res is not None:
+        others = "+".join(k for k in ("seqid", "biotype") if k in kw) or "alone"
+        return ("fail", f"on_alignment/{cls}/on_alignment={oa}/{others}/{describe(res)}",
+                f"records {[proj_full(it) for it in items]} in {cls} db: get_features_matching({kw}): {explain(res, proj_feature)}; "
+                f"linear scan selects {[proj_feature(it) for it in must]}")
+    return ("ok", bool(must) and len(must) < len(items))
+
+
 # ------------------------------------------------------------------------------------------------ subset
 SUBKEYS = ("seqid", "biotype", "name", "strand", "attributes", "start", "stop", "allow_partial")
 
@@ -916,6 +958,15 @@ def contract_family(case):
 
 
 BOUNDED = {
+    "on_alignment": {
+        "gen": gen_on_alignment, "contract": contract_on_alignment,
+        "functions": ["SqliteAnnotationDbMixin.get_features_matching (on_alignment argument; user table vs gff / gb tables)"],
+        "bound": "Basic/Gff/Genbank db holding the two fixed record sets (the second with two more alignment-level user "
+                 "records) and 3 (thorough 12) seeded random sets; on_alignment True / False x seqid (none, s1, s2) x biotype "
+                 "(none, gene)",
+        "rule": "a record matches on_alignment=v iff its on_alignment flag is v (file-derived records: False); compared "
+                "with the linear scan as a multiset; non-trivial when the scan selects some but not all records",
+    },
     "query": {
         "gen": gen_query, "contract": contract_query,
         "functions": ["SqliteAnnotationDbMixin.get_features_matching", "SqliteAnnotationDbMixin.get_records_matching",
